@@ -403,7 +403,7 @@ def run_instance(inst):
         sup = set().union(*[sym.support(n_) for _, n_ in obl]) if obl else set()
         q.positive(sorted(s_ for s_ in sup if s_.rstrip("0123456789") in models.POSITIVE or s_ == "dt" or s_ in atom_names))
         q.add_any([sym.band(c, sym.eq(n_, const(0))) for c, n_ in obl]) if obl else q.add("false")
-        r0 = q.check(timeout=timeout)
+        r0 = q.check(timeout=min(timeout, 20))     # decided in < 5 s or not at all (nonlinear): do not spend the tier's budget here
         res["counters"][f"L0_{r0.status}"] = 1
         if r0.status not in ("unsat",):
             res["inconclusive"].append({"instance": inst, "query": "L0_pivots", "reason": r0.status})
@@ -476,6 +476,10 @@ def families():
     # point-neuron networks (no compartment edges at all) and a trailing point neuron
     pt = {"parents": [-1], "ncomps": [1]}
     nets += [{"kind": "network", "cells": [pt, pt, pt]}, {"kind": "network", "cells": [small[0], pt]}, {"kind": "network", "cells": [pt, small[0]]}]
+    # a non-last cell whose sibling branches have different compartment counts: its level is padded inside the
+    # network's solve layout, and the next cell must land behind the padding
+    pad_a, pad_b = {"parents": [-1, 0, 0], "ncomps": [1, 2, 1]}, {"parents": [-1, 0, 0], "ncomps": [1, 2, 2]}
+    nets += [{"kind": "network", "cells": [pad_a, pad_b]}] + ([] if quick else [{"kind": "network", "cells": [pad_b, pad_a]}, {"kind": "network", "cells": [pad_a, pad_a, pad_b]}])
     specs += nets
     insts = []
     for s in specs:
